@@ -2,7 +2,7 @@
 \* particular every order of their Execute and Write steps (a response HELD between execution and write while
 \* the others execute).  EmitSched prints the schedule graph (phase per slot: pre / held / written); its maximal
 \* paths are the orders the harness drives real concurrent requests through (-workers 1).
-\* Measured: see notes/C07.md.
+\* Measured: 1,370 distinct states, depth 27, 54 schedule edges over 27 phase vectors, 90 maximal paths, 1.5 s.
 CONSTANTS
   Requests <- RequestsHeld
   ResetFields <- AllSix
